@@ -1,16 +1,27 @@
 --------------------------- MODULE MC_Determinism ---------------------------
-(* Mode A for C20: a run picks an iteration order for a set-valued attribute (nondeterministic
-   permutation = hash seed), then renders it.  With Sorted = TRUE the output is a function of the
-   set alone (Deterministic holds); with Sorted = FALSE TLC must find two runs that differ
-   (negative control), unless the set has fewer than two elements.                              *)
+(* Mode A for C20.
+   Sets: a run picks an iteration order for a set-valued attribute (nondeterministic permutation =
+   hash seed), then renders it.  With Sorted = TRUE the output is a function of the set alone
+   (Deterministic holds); with Sorted = FALSE TLC must find two runs that differ (negative control),
+   unless the set has fewer than two elements.
+   Random names: a run draws an internal name for an object it adds to a rule (the detections of an
+   applied filter, an added condition).  A message about that object either names it as its author
+   wrote it (NamesAsWritten = TRUE) or by the internal name; in the second case the text depends on
+   the draw (negative control MC_Determinism_negative_names.cfg).                                *)
 EXTENDS Determinism, TLC
-CONSTANT Sorted
-VARIABLES S, order, out, phase
-vars == <<S, order, out, phase>>
-Init == S \in SUBSET {1, 2, 3} /\ order = <<>> /\ out = <<>> /\ phase = "start"
-Iterate == phase = "start" /\ order' \in Perms(S) /\ phase' = "iterated" /\ UNCHANGED <<S, out>>
-Emit == phase = "iterated" /\ out' = Render(S, order, Sorted) /\ phase' = "done" /\ UNCHANGED <<S, order>>
+CONSTANTS Sorted, NamesAsWritten
+VARIABLES S, order, out, phase, written, draw, msg
+vars == <<S, order, out, phase, written, draw, msg>>
+Init == /\ S \in SUBSET {1, 2, 3} /\ order = <<>> /\ out = <<>> /\ phase = "start"
+        /\ written \in {"a", "b"} /\ draw = 0 /\ msg = <<>>
+Iterate == /\ phase = "start" /\ order' \in Perms(S) /\ draw' \in 1..3 /\ phase' = "iterated"
+           /\ UNCHANGED <<S, out, written, msg>>
+Emit == /\ phase = "iterated" /\ out' = Render(S, order, Sorted) /\ phase' = "done"
+        /\ msg' = IF NamesAsWritten THEN <<"detection", written>> ELSE <<"detection", draw, written>>
+        /\ UNCHANGED <<S, order, written, draw>>
 Next == Iterate \/ Emit
 Spec == Init /\ [][Next]_vars
 Deterministic == phase = "done" => out = SortSeqNat(S)
+\* the message is a function of what was written: no trace of the draw
+NoInternalName == phase = "done" => msg = <<"detection", written>>
 =============================================================================
